@@ -151,6 +151,21 @@ def make_tree(kind, seed, t):
                '<surName>S</surName></individualName></creator><contact><references>c1</references></contact>'
                '<additionalMetadata><metadata><x:unit xmlns:x="urn:x" x:a="1">u</x:unit></metadata></additionalMetadata></dataset></eml:eml>')
         return metapype_io.from_xml(xml, clean=rnd.random() < 0.5)
+    if kind in ("mutated", "stripped"):
+        # "all trees": invalid ones too - the fixture or a generated tree after adversarial mutations, or with the
+        # attributes (required ones included) of half of its nodes removed
+        root = valtrace.fixture_root() if seed % 2 else tables.TreeGen(t, seed, max_depth=4, breadth=4).gen(rnd.choice(["eml", "dataset", "creator", "project"]))
+        if kind == "mutated":
+            for _ in range(rnd.randint(3, 10)):
+                valtrace.mutate(root, rnd, t)
+        else:
+            for n in list(walk(root)):
+                if rnd.random() < 0.5:
+                    for a in list(n.attributes):
+                        n.remove_attribute(a)
+                if rnd.random() < 0.1 and n.content is not None:
+                    n.content = rnd.choice(["", " ", None])
+        return root
     g = tables.TreeGen(t, seed, max_depth=4, breadth=4)
     root = g.gen(rnd.choice(["eml", "dataset", "dataTable", "creator", "abstract", "methods"]))
     if kind == "entities":
@@ -208,12 +223,12 @@ def run(rep, tier, seed):
     rnd = random.Random(seed)
     jobs = []
     # all ordered pairs on small trees of every kind
-    for i, kind in enumerate(["generated", "entities", "ns", "default-ns"] + (["generated", "entities"] if tier == "thorough" else [])):
+    for i, kind in enumerate(["generated", "entities", "ns", "default-ns"] + (["generated", "entities"] if tier == "thorough" else [])):      # (small trees: 31^2 pairs of calls each)
         jobs.append((kind, seed * 101 + i, plan_pairs))
     # seeded sequences of length 24 on larger trees, incl. the fixture
-    nseq = 8 if tier == "quick" else 150
+    nseq = 14 if tier == "quick" else 210
     for i in range(nseq):
-        kind = ["fixture", "generated", "entities", "ns", "default-ns"][i % 5]
+        kind = ["fixture", "generated", "entities", "ns", "default-ns", "mutated", "stripped"][i % 7]
         jobs.append((kind, seed * 977 + i, [rnd.choice(sorted(ops)) for _ in range(24)]))
     traces = [tr for chunk in parallel(w_record, jobs, chunk=1) for tr in chunk]
     strip = lambda tr: {"init": tr["init"], "events": tr["events"]}  # noqa: E731
